@@ -917,7 +917,10 @@ def run_exec_case(ctx, case, reqs, pend):
             ctx.count('exec:inprogress-inexact-prior-balanced')
     for k in CNT_KEYS:
         if after[k] - before[k] != counts[k]:
-            fails.append(('C16:exception-count', 'counter %s went up by %s, %d configured exceptions escaped' % (k, after[k] - before[k], counts[k])))
+            esc = sorted({repr(e[2]) for e in runner.events if e[0] == 'exit' and e[2] is not None})
+            cfg = [w['cls'] for n in runner.nodes for w in n.call['ws'] if w['t'] == 'E' and w['c'] == k]
+            fails.append(('C16:exception-count', 'counter %s went up by %s, but %d guarded calls let an isinstance of their configured classes %s escape (escaping: %s)' % (
+                k, after[k] - before[k], counts[k], cfg, ', '.join(esc)[:300])))
     for sig, what in fails[:3]:
         report(ctx, sig, what, case)
     toks = enc_tree(tree, [0])
